@@ -78,6 +78,7 @@ def run_tlc(
         "java",
         "-XX:+UseParallelGC",
         f"-Xmx{heap}",
+        "-Xss512m",
         "-Dtlc2.tool.fp.FPSet.impl=tlc2.tool.fp.OffHeapDiskFPSet",
     ]
     if dfs:
